@@ -15,30 +15,45 @@ fn push(out: &mut Vec<Violation>, prop: &'static str, clause: impl Into<String>,
     });
 }
 
+/// index: downstream id -> per-dependency keys `x!!!downstream` of h_in u h_out
+fn index_dep_keys<'a>(
+    h_in: &'a BTreeMap<String, String>,
+    h_out: &'a BTreeMap<String, String>,
+) -> BTreeMap<&'a str, BTreeSet<&'a String>> {
+    let mut m: BTreeMap<&str, BTreeSet<&String>> = BTreeMap::new();
+    for k in h_in.keys().chain(h_out.keys()) {
+        if let Some((a, b)) = k.split_once("!!!") {
+            if !a.is_empty() && !b.is_empty() {
+                m.entry(b).or_default().insert(k);
+            }
+        }
+    }
+    m
+}
+
 /// keys of `h_in` u `h_out` of the form `x!!!j` that C08/C09 require unchanged:
 /// x a current upstream of j, or x absent from the graph
 fn dep_keys_in_range<'a>(
     post: &World,
     ids: &BTreeMap<String, usize>,
     j: &str,
-    h_in: &'a BTreeMap<String, String>,
-    h_out: &'a BTreeMap<String, String>,
-) -> BTreeSet<&'a String> {
-    let suffix = format!("!!!{}", j);
-    h_in.keys()
-        .chain(h_out.keys())
-        .filter(|k| k.ends_with(&suffix) && k.len() > suffix.len())
-        .filter(|k| {
-            let a = &k[..k.len() - suffix.len()];
-            if a.contains("!!!") {
-                return false;
-            }
-            match (ids.get(a), ids.get(j)) {
-                (Some(sa), Some(sj)) => post.has_dep(*sj, *sa),
-                _ => true,
-            }
-        })
-        .collect()
+    index: &BTreeMap<&'a str, BTreeSet<&'a String>>,
+) -> Vec<&'a String> {
+    let suffix_len = j.len() + 3;
+    match index.get(j) {
+        None => vec![],
+        Some(keys) => keys
+            .iter()
+            .filter(|k| {
+                let a = &k[..k.len() - suffix_len];
+                match (ids.get(a), ids.get(j)) {
+                    (Some(sa), Some(sj)) => post.has_dep(*sj, *sa),
+                    _ => true,
+                }
+            })
+            .cloned()
+            .collect(),
+    }
 }
 
 pub struct PostHoc {
@@ -65,11 +80,13 @@ pub fn posthoc(pre: &World, post: &World, res: &mut EvalOut) -> PostHoc {
     let useless = post.useless();
     let clean = res.clean();
     let tainted = post.tainted;
+    let dep_index = index_dep_keys(h_in, &h_out);
     let cur_actual = |u: usize| -> Option<String> {
         let uid = post.id(u);
         match res.disp.get(&uid) {
             // a job that was never started still has the output it produced last time
-            Some(Disp::ExecFailed) | Some(Disp::ExecAborted) => None,
+            // (also one that was cut off by an abort: nothing it did is recorded)
+            Some(Disp::ExecFailed) => None,
             _ => res.cur.get(&uid).cloned(),
         }
     };
@@ -156,7 +173,7 @@ pub fn posthoc(pre: &World, post: &World, res: &mut EvalOut) -> PostHoc {
         if h_out.contains_key(&format!("{}!!!", j)) {
             push(&mut v, "C08", "failed-job-has-input-list-record", j.clone());
         }
-        for k in dep_keys_in_range(post, &ids, j, h_in, &h_out) {
+        for k in dep_keys_in_range(post, &ids, j, &dep_index) {
             if h_in.get(k) != h_out.get(k) {
                 push(&mut v, "C08", "dependency-record-of-failed-job-changed", format!("{}: {:?} -> {:?}", k, h_in.get(k), h_out.get(k)));
             }
@@ -174,7 +191,7 @@ pub fn posthoc(pre: &World, post: &World, res: &mut EvalOut) -> PostHoc {
             if h_in.get(&ik) != h_out.get(&ik) {
                 push(&mut v, "C09", format!("input-list-of-{}-job-changed", what), format!("{}: {:?} -> {:?}", ik, h_in.get(&ik), h_out.get(&ik)));
             }
-            for k in dep_keys_in_range(post, &ids, j, h_in, &h_out) {
+            for k in dep_keys_in_range(post, &ids, j, &dep_index) {
                 let upstream = &k[..k.len() - j.len() - 3];
                 if res.flipped.contains(j) && post.superseded(upstream, &ids) {
                     // skipped (= recorded against the new name of its upstream) before the
